@@ -88,7 +88,9 @@ impl<'store> ResultItem<'store, Annotation> {
         let selector = self.as_ref().target();
         let iter: TargetIter<AnnotationDataSet> =
             TargetIter::new(selector.iter(self.store(), false));
-        ResultIter::new_sorted(FromHandles::new(iter, self.store()))
+        //(a set gives each dataset once, in handle order)
+        let collection: BTreeSet<AnnotationDataSetHandle> = iter.collect();
+        ResultIter::new_sorted(FromHandles::new(collection.into_iter(), self.store()))
     }
 
     /// Iterates over all the annotations this annotation targets (i.e. via a [`Selector::AnnotationSelector`])
